@@ -99,6 +99,18 @@ FIXED = [
     r'(let x = "a" in [`x`, "b"]) | (let x = "a" in [`x`, "a"])',
     # a class field used as a bare argument of a template (its value is passed)
     r'F', r'F+', r'[F, Opt(K)]',
+    # a predicate that is false after its operand - written directly as a literal or a regular expression - has
+    # consumed input: the next alternative, the end of a repetition, the continuation start where the operand started
+    r'let x = W in [":", ("ab" where `lambda v: v == x`) | /[ab]+/]',
+    r'let x = W in [":", (/[ab]/ where `lambda v: v == x`)*, /[ab]*/]',
+    r'let x = W in [":", (/[ab]+/ where `lambda v: len(v) > len(x)`) | /[ab]/, /[ab]*/]',
+    r'let x = W in [":", (/[ab]/ where `lambda v: v == x`){1,2}, /[ab]*/]',
+    r'let x = W in [":", Opt(/[ab]+/ where `lambda v: v == x`), /[ab]*/]',
+    r'let x = W in [":", Skip(/[ab]/ where `lambda v: v == x`), /[ab]*/]',
+    r'let x = W in [":", ((/[ab]/ where `lambda v: v == x`) // ","), /[ab,]*/]',
+    r'let x = W in [":", Expect(/[ab]+/ where `lambda v: v == x`) | /[ab]/, /[ab]*/]',
+    r'let x = W in [":", ((/[ab]+/ |> `len`) where `lambda v: v % 2`) | /[ab]/, /[ab]*/]',
+    r'let x = W in [":", ((/[ab]+/ << Opt(",")) where `lambda v: v == x`) | /[ab]/, /[ab,]*/]',
 ]
 def shadow_recovery_stratum():
     """a let that shadows an outer binding whose BODY fails, the failure being recovered by a later alternative, an
@@ -133,7 +145,8 @@ CLASS_FIXED = [
 TEXTS = [''.join(p) for L in range(0, 4) for p in itertools.product('12ab', repeat=L)] + ['aaa', 'aab1', 'abab', '3aaa', '1aaa', 'aaaaa'] + \
         ['2:ab', '2:a', '1:ab', '12b', '1a', 'ab:ab', 'ab:abb', 'a:b', '2aa1a0', '1a2b', '1,2', '1a,2b,', '1a1a', '1a1a!',
          '1ab', '12a', '21b', '1a2', '2ab2', '2bb2', '2ab1', '123', 'aab', 'aaa', '1:a2:ab', '3:aba', '1a:a', '1a:b', '11',
-         '23ab', '23aa', '12a', '13a', '2ab-1', '1ab1', '1a!1', '12!2', '12-!1', '21a', '22aa', '212aa', '1abab', '1aab', '2ab!ab']
+         '23ab', '23aa', '12a', '13a', '2ab-1', '1ab1', '1a!1', '12!2', '12-!1', '21a', '22aa', '212aa', '1abab', '1aab', '2ab!ab', \
+        'a:ab', 'a:aab', 'a:ba', 'ab:abab', 'b:aab', 'a:a,a,b', 'ab:a', 'ab:aba', 'a:b,a', 'b:bba', 'a:abb', 'ab:ab,ab']
 
 
 def shadows(ex):
